@@ -12,7 +12,9 @@ META = dict(
            "LU stub and the rows of the recorded system are proved identical to M u_dot - h - W_c la_c - W_tau la_tau - W_g la_g and to g_ddot; (b) guards: "
            "a point mass on a spherical joint with a SYMBOLIC initial position / velocity, and a point mass over a plane with a symbolic initial height "
            "and approach velocity: every path that returns has a consistent state, every inconsistent state raises; (c) resting contact with symbolic "
-           "gravity and friction coefficient, fixed-point loop bounded to 2 iterations: returned la_N >= 0 and |la_F| <= mu la_N.",
+           "gravity and friction coefficient, fixed-point loop bounded to 2 iterations: returned la_N >= 0 and |la_F| <= mu la_N; (d) the acceleration-level "
+           "contact data the initial fixed point is solved with (zeta_N, zeta_F, W_N, W_F at system level) are the time derivatives of g_N_dot / gamma_F "
+           "for a sphere (rigid body / point mass) on a MOVING plane with symbolic state.",
     assumptions=["LU contract for the linear solve", "acceleration-level complementarity holds only at an exact fixed point of the contact loop (not claimed beyond the projections' ranges)"],
     trusted_base=["LU contract"],
 )
@@ -135,6 +137,23 @@ def guard_contact(h, seed=0):
         h.le("initial friction force within the Coulomb cone", laF @ laF, (0.3 * laN[0]) * (0.3 * laN[0]) * (1 + 1e-9) + 1e-18)
 
 
+def contact_gap(h, sub="RB", seed=0):
+    """the acceleration-level contact quantities consistent_initial_conditions solves with (zeta_N = System.g_N_ddot(t0, q0, u0, 0),
+    zeta_F = System.gamma_F_dot(t0, q0, u0, 0), W_N, W_F) are the time derivatives of the velocity-level gaps, for a MOVING plane"""
+    from checks import c06
+    sysm, fr, body, con, mu, r, an, B = c06._s2p(h, sub, seed)
+    t, q, u, ud = lib.sys_state(h, sysm)
+    qd = sysm.q_dot(t, q, u)
+    zero = np.zeros(sysm.nu)
+    gNd = lambda t_, q_, u_: sysm.g_N_dot(t_, q_, u_)
+    gF = lambda t_, q_, u_: sysm.gamma_F(t_, q_, u_)
+    WN, WF = np.asarray(sysm.W_N(t, q).toarray()), np.asarray(sysm.W_F(t, q).toarray())
+    h.eq("zeta_N + W_N^T u_dot = d/dt g_N_dot along (q_dot, u_dot)", sysm.g_N_ddot(t, q, u, zero) + WN.T @ ud, h.D(gNd, (t, q, u), (1.0, qd, ud)))
+    h.eq("zeta_F + W_F^T u_dot = d/dt gamma_F along (q_dot, u_dot)", sysm.gamma_F_dot(t, q, u, zero) + WF.T @ ud, h.D(gF, (t, q, u), (1.0, qd, ud)))
+    h.eq("System.g_N_ddot(t, q, u, u_dot) = d/dt g_N_dot", sysm.g_N_ddot(t, q, u, ud), h.D(gNd, (t, q, u), (1.0, qd, ud)))
+    h.eq("System.gamma_F_dot(t, q, u, u_dot) = d/dt gamma_F", sysm.gamma_F_dot(t, q, u, ud), h.D(gF, (t, q, u), (1.0, qd, ud)))
+
+
 def cases(tier, seed):
     T = 120 if tier == "quick" else 600
     return [
@@ -143,4 +162,6 @@ def cases(tier, seed):
         Case("guard/position", guard_bilateral, dict(level="position", seed=seed), timeout=T, max_paths=128, sentinel=False),
         Case("guard/velocity", guard_bilateral, dict(level="velocity", seed=seed), timeout=T, max_paths=128, sentinel=False),
         Case("guard/contact", guard_contact, dict(seed=seed), timeout=T, max_paths=128, sentinel=False),
+        Case("contact/acceleration_gap/RB", contact_gap, dict(sub="RB", seed=seed), timeout=T, hard=T * 10),
+        Case("contact/acceleration_gap/PM", contact_gap, dict(sub="PM", seed=seed), timeout=T, hard=T * 10),
     ]
